@@ -209,3 +209,83 @@ def _cascade(aggname, keys):
 for _n, _k in AGGS.items():
     if _n != "state":
         _cascade(_n, _k)
+
+
+# ---- the per-group statistics of GaussianModel._fit (real body; weighted median / bootstrapped scale under contract) --
+WM = "elexmodel.utils.math_utils.weighted_median"
+BS = "elexmodel.utils.math_utils.boot_sigma"
+
+
+def _cal_world(h):
+    t = Three(h, "turnout", extra=("lower_bounds", "upper_bounds"))
+    u = t.root.u
+    f = z3.Function("inCal", z3.IntSort(), z3.BoolSort())
+    h.syms["inCal"] = f
+    inCal = f(u)
+    h.forall_rows(t.root, z3.Implies(inCal, t.R))
+    cal = frames.base_frame(t.root, inCal, {k: c.t for k, c in t.rep.cols.items()}, "geographic_unit_fips")
+    return t, inCal, cal
+
+
+def _spec_stats(h, t, inCal, keys, alpha, settings):
+    """the statistics of the statement for the generic group of `keys` (all calibration units when keys == [])"""
+    from pyvc import sums
+
+    gs = frames.keyspace(list(keys), {k: z3.StringSort() for k in keys})
+    dom = z3.And(inCal, *[t.keys[k] == gs.keyvars[k] for k in keys])
+    ctx = h.ctx
+    w = z3.ToReal(t.last)
+    lo, up = h.syms["lower_bounds"](t.root.u), h.syms["upper_bounds"](t.root.u)
+    W, dW = sums.formal_sum_dom(ctx, t.root, dom, t.last)
+    W2, _ = sums.formal_sum_dom(ctx, t.root, dom, t.last * t.last)
+    conf = (3 + alpha.t) / 4
+    extra = [conf, z3.BoolVal(settings["winsorize"]), z3.IntVal(settings["seed"]), z3.IntVal(10000)]
+    out = {}
+    out["var_inflate"] = z3.ToReal(W2) / (z3.ToReal(W) * z3.ToReal(W))
+    out["mu_lower_bound"] = sums.formal_stat(ctx, "wmedian", t.root, dom, [lo, w / z3.ToReal(W)])[0]
+    out["mu_upper_bound"] = sums.formal_stat(ctx, "wmedian", t.root, dom, [up, w / z3.ToReal(W)])[0]
+    out["sigma_lower_bound"] = settings["beta"] * sums.formal_stat(ctx, "bootsigma", t.root, dom, [lo], extra)[0]
+    out["sigma_upper_bound"] = settings["beta"] * sums.formal_stat(ctx, "bootsigma", t.root, dom, [up], extra)[0]
+    out["_W"] = dW
+    return gs, dom, out
+
+
+SETTINGS = dict(save_conformalization=False, election_id="e", office="S", geographic_unit_type="county", winsorize=False, beta=1, seed=4191)
+
+
+def _fit_stats(aggname, keys):
+    @unit("C15", f"group_statistics.{aggname}", fns=[f"{GM}._fit", "elexmodel.utils.math_utils.compute_inflate"])
+    def stats(h):
+        """GaussianModel._fit: one row per group that has calibration units; var_inflate = sum w^2 / (sum w)^2, centres =
+        weighted median of the group's lower / upper scores with weights w / sum w, scales = beta x bootstrapped sigma of the
+        group's scores at confidence (3+alpha)/4 -- all over exactly the calibration rows of that group"""
+        t, inCal, cal = _cal_world(h)
+        h.contracts[WM] = theory_ext.weighted_median_contract
+        h.contracts[BS] = theory_ext.boot_sigma_contract
+        alpha = h.real("alpha")
+        gm = h.obj(GM, **SETTINGS)
+        kind, res = h.call_method(gm, "_fit", cal, "turnout", list(keys), alpha)
+        if kind == "raise":
+            return h.fail("no_raise", f"raised {res}")
+        from pyvc import sums
+
+        gs, dom, want = _spec_stats(h, t, inCal, keys, alpha, SETTINGS)
+        facts = z3.And(*t.root.facts())
+        h.ensures("one_segment_over_the_groups", isinstance(res, frames.Frame) and res.axis.root is gs and len(res.axis.doms) == 1)
+        h.ensures("a_group_with_calibration_units_has_a_row", z3.Implies(z3.And(facts, dom), res.axis.doms[0]))
+        wit = frames.presence_instances(h.ctx, t.root, {k: gs.keyvars[k] for k in keys})
+        h.ensures("a_row_is_a_group_with_calibration_units", z3.Implies(res.axis.doms[0], z3.Or(*[z3.And(r >= 0, r < t.root.n, z3.substitute(dom, (t.root.u, r))) for r in wit])))
+        dW = want.pop("_W")
+        for r in wit:  # a group with a calibration row has positive weight (previous results + 1 >= 1)
+            sums.lemma_sum_ge_member(h.ctx, dW, r)
+        h.ensures("columns", list(res.cols) == list(keys) + ["var_inflate", "mu_lower_bound", "mu_upper_bound", "sigma_lower_bound", "sigma_upper_bound"], why=str(list(res.cols)))
+        for k, w in want.items():
+            c = res.col(k)
+            h.ensures(f"{k}.is_the_statistic_of_the_groups_own_calibration_rows", z3.Implies(res.axis.doms[0], real(c.t) == w))
+            h.ensures(f"{k}.defined", z3.Implies(res.axis.doms[0], z3.Not(c.nan) if c.nan is not None else z3.BoolVal(True)))
+
+    return stats
+
+
+for _n, _k in list(AGGS.items()) + [("all", [])]:
+    _fit_stats(_n, _k)
